@@ -22,7 +22,9 @@ MultiCrossBlock(design, [crossing], cs, rcc, WEIGHT); L2 / L3 for blocks of ever
 Compared fields: design (ordered, de-duplicated), crossings, crossing sustain counts, crossing weights, constraint
 multiset, require_complete_crossing, mode, alignment; a refusal on one side only is a difference. (read-only) no
 constructor mutates a list it merely aliases from an argument block or a parameter (in-place += / append / extend /
-insert / sort on an alias), which would leak one combinator's constraints into every later use of the block.
+insert / sort on an alias), which would leak one combinator's constraints into every later use of the block.  The laws
+equate what reaches _create; how _create turns that into trial counts and crossing weights is C16's clause, evaluated here
+as well under its own rule names.
 """
 NOT_DECIDED = "that equal _create inputs give equal sequence sets (assumed: _create is deterministic in them), the effect of the weight recomputation inside _create for WEIGHT / EQUAL modes, and laws for blocks whose own construction was refused."
 
